@@ -2,7 +2,7 @@
 import re
 
 from common import find_aggs
-from factlib import resolve_const
+from factlib import resolve_const, trace
 
 PUNCT = {"!", "$", "&", "(", ")", "...", ":", "=", "@", "[", "]", "{", "|", "}"}
 P = "async_graphql_parser::parse"
@@ -434,3 +434,63 @@ def run(F, R):
         R.check(not nullable(r["expr"], (name,)), "R13.9", "presence-rule-not-nullable:" + name, "parser/src/graphql.pest:" + name, "cannot match the empty string",
                 "rule `%s` can match the empty string, and a builder uses the presence of its pair as a flag: the flag is set for every input "
                 "(e.g. every directive definition is reported as `repeatable`)" % name)
+
+    # ---------------------------------------------------------------- R13.10
+    R.rule("R13.10", "a unicode escape (backslash u XXXX) consumes exactly four characters after the `u`: in the `u` arm of string_value the characters taken from the iterator "
+                     "(Chars::next per element of a constant Range, explicit next() calls, nth(k) = k+1) sum to 4 — one more and the character after the escape "
+                     "is swallowed, one less and a hex digit is left in the string")
+    from common import char_switch_arms, const_eval as _ce13
+    sv = [b for b in F.find(r"^async_graphql_parser::parse::utils::string_value::\{closure#\d+\}$") if char_switch_arms(b)]
+    R.floor("R13.10", "string_value decoder closure", len(sv), 1)
+    for b in sv[:1]:
+        arms = char_switch_arms(b)
+        # arms: {char: target block}; region of 'u' exclusive of the other arms
+        utgt = arms.get(ord("u"))
+        if utgt is None:
+            R.violation("R13.10", "string_value:u-arm", b.where(), "no `u` arm in the escape decoder")
+            continue
+        others = [t for ch, t in arms.items() if ch != ord("u") and t != utgt]
+        region = b.reachable(utgt) - set().union(*[b.reachable(t) for t in others]) if others else b.reachable(utgt)
+        region.add(utgt)
+        consumed = 0
+        unknown = []
+        for c in b.calls():
+            if c.bb not in region or not c.callee:
+                continue
+            if re.search(r"str::iter::\{impl#\d+\}::next$", c.callee):
+                consumed += 1
+            elif re.search(r"::nth$", c.callee) and re.search(r"Chars", " ".join(c.argtys)):
+                k = _ce13(b, c.args[1]) if len(c.args) > 1 else None
+                if k is None:
+                    unknown.append("nth(?)")
+                else:
+                    consumed += k + 1
+            elif re.search(r"Iterator::(map|for_each|fold)$|iter::.*::(map|for_each)$", c.declared or c.callee):
+                # closure applied to a constant Range: per-element consumption times the range length
+                rng = None
+                for a in c.args[:1]:
+                    if a[0] in ("c", "m"):
+                        for _bb, st in b.defs_of_local(a[1][0]):
+                            r_ = st[1]
+                            if r_[0] == "agg" and r_[1] == "adt" and r_[2].endswith("ops::range::Range") and len(r_[5]) == 2:
+                                lo, hi = _ce13(b, r_[5][0]), _ce13(b, r_[5][1])
+                                if lo is not None and hi is not None:
+                                    rng = hi - lo
+                if rng is None:
+                    continue
+                per = 0
+                for a in c.args[1:]:
+                    o, _ = trace(b, a)
+                    for k_, r_ in o:
+                        if k_ == "agg" and r_[1] == "closure":
+                            cb = F.get(r_[2])
+                            if cb is not None:
+                                per += len([x for x in cb.calls() if x.callee and re.search(r"str::iter::\{impl#\d+\}::next$", x.callee)])
+                consumed += rng * per
+            elif re.search(r"::(take|skip|advance_by|nth_back|as_str)$", c.callee) and re.search(r"Chars", " ".join(c.argtys)):
+                unknown.append(c.callee.split("::")[-1])
+        if unknown and consumed != 4:
+            R.violation("R13.10", "string_value:u-escape-consumes-4", b.where(), "the `u` arm consumes characters through %s (counted %d): cannot show that exactly four are taken" % (unknown, consumed))
+        else:
+            R.check(consumed == 4, "R13.10", "string_value:u-escape-consumes-4", b.where(), "4 characters consumed",
+                    "the `u` arm consumes %d characters instead of 4: the text after a unicode escape is corrupted (u0041 followed by BC decodes to AC)" % consumed)
